@@ -116,4 +116,19 @@ def useZeroFirst (s : S) (l amt : Nat) : S :=
   else if fits s.cap s.used (s.chain l) amt then doUseGrant s l amt
   else doUseWait s l amt
 
+/-! ### a cached effective cap refreshed one level deep; child `Close` that settles the account (round 7) -/
+
+/-- a CACHED effective cap (`seeded/ind7-c16-a`: `cappedBy`), refreshed by `SetCap(l)` for `l` and its DIRECT children only -/
+def refreshOneLevel (s : S) (cache : Nat → Nat) (l : Nat) : Nat → Nat :=
+  fun x => if x = l ∨ (s.chain x).tail.head? = some l then effCap s.cap (s.chain x) (s.cap x) else cache x
+
+/-- root 9 → child 8 → grandchild 7 -/
+def depth3 : S := run (init 9) [.newChild 0 8, .newChild 1 7]
+/-- … after `SetCap(3)` on the root -/
+def depth3Set : S := exec depth3 (.setCap 0 3)
+
+/-- child `Close` that "settles the account" (`seeded/ind7-c16-b`): what the child used is given back to its ancestors -/
+def closeSettle (s : S) (l : Nat) : S :=
+  { doCloseChild s l with used := fun x => if x ∈ s.chain l ∧ x ≠ l then s.used x - s.used l else s.used x }
+
 end RL
